@@ -591,9 +591,49 @@ Fixpoint urun (db : list blk) (steps : list (blk * N * bool)) : bool :=
       (uverdict_code (verify_uncles db b) =? obs) && urun (if store then b :: db else db) t
   end.
 
+(* ---------------------------------------------------------------- post-fork share reward: time discount *)
+(* core/headerchain.go HeaderChain.CalculateTimeDiscountedShareReward (used by StateProcessor.Process and the
+   worker for every merged-mined share once PrimeTerminusNumber >= InclusionDepthChangeBlock).  All time
+   arithmetic is uint32 and WRAPS (the Go code subtracts without a guard); the amount is big.Int. *)
+Definition u32 (x : N) : N := x mod two32.
+Definition u32sub (a b : N) : N := (u32 a + two32 - u32 b) mod two32.
+Definition u32mul (a b : N) : N := (a * b) mod two32.
+Definition u32add (a b : N) : N := (a + b) mod two32.
+(* types.PowID: 0 Progpow, 1 Kawpow, 2 SHA_BTC, 3 SHA_BCH, 4 Scrypt; switch: SHA_BCH, SHA_BTC -> sha liveness, default *)
+Definition liveness_of (pid : N) : N :=
+  if (pid =? 3) || (pid =? 2) then new_share_liveness_time_for_sha else share_liveness_time.
+Definition discount_clamp (live dt0 : N) : N :=
+  let dt1 := if live <? dt0 then live else dt0 in                       (* if timeSinceSignature > livenessTime *)
+  if dt1 <? no_penalty_time_threshold then no_penalty_time_threshold else dt1.
+Definition discount_num (live dt : N) : N :=
+  let range := u32sub live no_penalty_time_threshold in
+  let dist := u32sub live dt in
+  let pen := u32 unlively_share_penalty in
+  let dv := u32 share_reward_penalty_divisor in
+  u32add (u32mul pen range) (u32mul (u32sub dv pen) dist).
+Definition discount_den (live : N) : N :=
+  u32mul (u32 share_reward_penalty_divisor) (u32sub live no_penalty_time_threshold).
+(* None = big.Int.Div panics (division by zero); excluded for the generated constants by discount_params_ok *)
+Definition time_discount (pid ts sig : N) (reward : Z) : option Z :=
+  let live := liveness_of pid in
+  let dt := discount_clamp live (u32sub ts sig) in                      (* share timestamp - signatureTime, uint32 *)
+  let den := discount_den live in
+  if den =? 0 then None else Some (reward * Z.of_N (discount_num live dt) / Z.of_N den)%Z.
+Definition max_penalty_amount (reward : Z) : Z :=
+  (reward * Z.of_N unlively_share_penalty / Z.of_N share_reward_penalty_divisor)%Z.
+(* side conditions on the generated constants under which no uint32 product wraps and no division is by zero *)
+Definition discount_live_ok (live : N) : bool :=
+  (no_penalty_time_threshold <? live) && (live <? two32)
+  && (share_reward_penalty_divisor * (live - no_penalty_time_threshold) <? two32).
+Definition discount_params_ok : bool :=
+  discount_live_ok share_liveness_time && discount_live_ok new_share_liveness_time_for_sha
+  && (0 <? unlively_share_penalty) && (unlively_share_penalty <=? share_reward_penalty_divisor)
+  && (share_reward_penalty_divisor <? two32).
+
 (* observed result of RedeemLockedQuai: class (0 ok, 1 error, 2 panic), unlock list,
    existence/balance of every address mentioned afterwards *)
 Inductive cbody :=
+| CDiscount (pid ts sig : N) (reward : Z) (cls : N) (observed : Z)
 | CLedger (h : list (cop * out))
 | CValue (v : Z) (lb h : N) (observed : Z)
 | CRedeem (ch : chain) (h : N) (fee : Z) (pre : list (addr * Z))
@@ -615,6 +655,11 @@ Definition case_ok (c : case) : bool :=
       | RedPanic => cls =? 2
       end
   | CUncles steps => urun [] steps
+  | CDiscount pid ts sg reward cls obs =>
+      match time_discount pid ts sg reward with
+      | Some v => (cls =? 0) && Z.eqb v obs
+      | None => cls =? 2
+      end
   end.
 
 Definition mismatches (cs : list case) : list N :=
